@@ -39,17 +39,20 @@ func (r *Run) GoBuild(name, pkg string, flags ...string) string {
 	return out
 }
 
-// GoBuildRepo builds a main package of /repo itself (the real CLIs).
+// GoBuildRepo builds a main package of /repo itself (the real CLIs), e.g.
+// "go.uber.org/thriftrw" or "go.uber.org/thriftrw/cmd/thriftbreak". It is
+// built from the harness module (whose replace directive points at /repo) so
+// that nothing under /repo is written, not even go.sum.
 func (r *Run) GoBuildRepo(name, pkg string, flags ...string) string {
 	out := filepath.Join(r.Scratch, name)
 	args := append([]string{"build"}, flags...)
 	args = append(args, "-o", out, pkg)
 	cmd := exec.Command("go", args...)
-	cmd.Dir = "/repo"
+	cmd.Dir = HarnessDir
 	b, err := cmd.CombinedOutput()
 	if err != nil {
 		r.Cleanup()
-		Inconclusive("go build /repo %s failed: %v\n%s", pkg, err, tail(b, 4000))
+		Inconclusive("go build %s failed: %v\n%s", pkg, err, tail(b, 4000))
 	}
 	return out
 }
